@@ -808,3 +808,35 @@ Proof.
   revert qs' H2. induction H1 as [|q fr qs frames Hq H1 IH]; intros qs' H2; inversion H2 as [|q' fr' qs'' frames' Hq' H2']; subst; [reflexivity|].
   cbn [combine map fst snd]. f_equal; [apply (frame_wsd_rigid M q q'); assumption | apply IH; exact H2'].
 Qed.
+
+(* ------------------------------------------------------------------ pair lists of selfCoordNum and group2CenterOnly *)
+Lemma pl_pts_exact r0 r0v en ed tol cell (pts : list (V3 * V3)) : 0 <= tol ->
+  pl_value_pts Rops (pl_build_pts Rops r0 r0v en ed tol cell pts) r0 r0v en ed tol cell pts =
+  rsum (fun pr => switching Rops r0 r0v en ed tol cell (fst pr) (snd pr)) pts.
+Proof.
+  intros Ht. unfold pl_value_pts, pl_build_pts. rewrite lsum_eq, combine_map_self, rsum_map.
+  apply rsum_ext. intros pr _. cbn [fst snd]. unfold nhalf. rs.
+  destruct (Rltb (- (tol * (1 / 2))) _) eqn:E; [reflexivity|].
+  apply Rltb_false in E. rewrite switching_clamp.
+  set (raw := switching_raw Rops r0 r0v en ed tol cell (fst pr) (snd pr)) in *.
+  destruct (Rltb raw 0) eqn:E2; [reflexivity|]. apply Rltb_false in E2. lra.
+Qed.
+Lemma self_rsum_pts (f : V3 -> V3 -> R) (l : list atomR) :
+  self_rsum (fun a b => f (a_pos a) (a_pos b)) l = rsum (fun pr => f (fst pr) (snd pr)) (self_pts l).
+Proof.
+  induction l as [|a r IH]; cbn [self_rsum self_pts rsum]; [reflexivity|]. rewrite rsum_app, rsum_map, IH. reflexivity.
+Qed.
+Lemma selfcoordnum_pairlist_exact r0 en ed tol cell g : 0 <= tol ->
+  pl_value_pts Rops (pl_build_pts Rops r0 None en ed tol cell (self_pts g)) r0 None en ed tol cell (self_pts g) =
+  cv_selfcoordnum Rops r0 en ed tol cell g.
+Proof.
+  intros Ht. rewrite pl_pts_exact by exact Ht. unfold cv_selfcoordnum. rewrite self_sum_from_eq. rs.
+  rewrite (self_rsum_pts (fun p1 p2 => switching Rops r0 None en ed tol cell p1 p2) g). lra.
+Qed.
+Lemma coordnum_center_pairlist_exact r0 r0v en ed tol cell g1 g2 : 0 <= tol ->
+  pl_value_pts Rops (pl_build_pts Rops r0 r0v en ed tol cell (center_pairs Rops g1 g2)) r0 r0v en ed tol cell (center_pairs Rops g1 g2) =
+  cv_coordnum_center Rops r0 r0v en ed tol cell g1 g2.
+Proof.
+  intros Ht. rewrite pl_pts_exact by exact Ht. unfold cv_coordnum_center, center_pairs. cbv zeta.
+  rewrite lsum_eq, rsum_map. reflexivity.
+Qed.
